@@ -30,6 +30,7 @@ type EnfTally struct {
 	RequiredBans int64
 	PostBanConns int64
 	Scenarios    int64
+	Planned      int // scenarios of this tier (after VERIF_SCALE)
 }
 
 // EnforceCount is the number of enforcement scenarios of a tier.
@@ -49,16 +50,17 @@ func EnforcementOnly() bool { return *enfOnly || *enfOne >= 0 }
 // EnforcementPart runs the scenario family (one child process each) and
 // reports into r. It does not call r.Finish.
 func EnforcementPart(r *evid.Run) EnfTally {
-	r.Set("enf_rule", "enforcement part (engine L2, one child process per scenario): the complete real ChainService against scripted wire peers reached through Config.Dialer as ConnectPeers (permanent, so the connection manager redials them). "+
-		"Scenario 0 is FIXED (a liar drops its connection after lying and completes the handshake of the redialled connection only once the client reports it banned: the ban lands mid-handshake); the others cycle through "+
-		"{services, liar-tip, liar-cp, bad-block, control, mixed, mixed-cp}: chains of 100-400 blocks (at-tip filter-header path) or 1000-2200 (checkpointed path), 1-3 honest peers plus, from the seed, peers without the CF / witness / both service bits, "+
-		"provable filter-header liars (omit-script / wrong-hash / unserved at a height on the chain), a consistent filter-checkpoint liar (provable lie below a checkpoint: false checkpoint and matching cfheaders), "+
-		"an invalid-block server (requested header, transactions altered: value / dropped tx / witness flip; the scenario then issues concurrent GetBlock calls), and honest-class peers: stale, slow, merely disconnecting; random first-connected peer. "+
+	r.Set("enf_rule", "enforcement part (engine L2, one child process per scenario): the complete real ChainService against scripted wire peers reached through Config.Dialer as ConnectPeers (permanent, so the connection manager redials them every 300 ms). "+
+		"Three FIXED scenarios: 0 = a liar drops its connection after lying and answers the handshake of the redialled connection only once the client reports it banned (the ban lands mid-handshake); "+
+		"1 = a peer whose filter CHECKPOINT is false while its cfheaders are true; 2 = a filter-header liar is the only peer during the initial sync, honest peers are admitted afterwards. "+
+		"The others cycle through {services, liar-tip, liar-cp, bad-block, control, mixed, mixed-cp, liar-late, liar-batch}: chains of 100-400 blocks (at-tip filter-header path) or 1010-2200 with one block-header checkpoint at 1000 (checkpointed path), 1-3 honest peers plus, from the seed, peers without the CF / witness / both service bits, "+
+		"provable filter-header liars (omit-script / wrong-hash / unserved at a height on the chain; also admitted late, so that only the false previous filter header shows), a consistent filter-checkpoint liar (provable lie below a checkpoint: false checkpoint and matching cfheaders), a batch liar (true checkpoints, false cfheaders, alone at first), "+
+		"an invalid-block server (requested header, transactions altered: value / dropped tx / witness flip; the scenario then issues concurrent GetBlock calls), and honest-class peers: stale, slow, merely disconnecting; random first-connected peer; in 3/4 of the scenarios no peer serves block headers before all had their chance to connect (steering). "+
 		"Observed: IsBanned polled every ~4 ms (first sighting stamped with the event-log sequence), per-address connection records (open point, open/closed, events per connection), the ban store reopened after Stop. "+
-		"Oracle: (a) missing-service peer whose version the client read => store record NoCompactFilters and IsBanned; (b) liar whose lie was sent while an honest peer answered the same request (or honest checkpoints were known) and the committed filter tip passed the height => InvalidFilterHeader/-Checkpoint; bad-block server that promptly answered a getdata => InvalidBlock; "+
+		"Oracle: (a) missing-service peer whose version the client read => store record NoCompactFilters and IsBanned; (b) liar whose lie was sent while the client could see the conflict (an honest peer answered the same request / honest checkpoints were known / the false previous filter header met the client's own true tip / its own true checkpoints) and the committed filter tip passed the height => InvalidFilterHeader/-Checkpoint, already in place when the initial sync completed if the lie was told before; checkpoint-only liar not banned after 3 rounds of conflict resolution; bad-block server that promptly answered a getdata => InvalidBlock; "+
 		"(c) no honest/stale/slow/disconnecting peer banned unless the log shows it left a request unanswered/late or dropped its own connection in a session with conflicts (then inconclusive); "+
-		"(d) on connections opened after the ban was seen the peer receives no request message at all, and no handshaken connection to a banned address is open after a 30 s watchdog (typical: ms); (e) an honest peer is still connected; IsBanned agrees with the reopened store. "+
-		"distinct = scenario shape (kind x peer-mix multiset x path x first peer) and per-peer outcome shape (class[:lie] x path x ban reason x what happened to later connections); non-trivial = at least one ban observed (control: synced with all peers up)")
+		"(d) on connections the client dealt with after the ban was seen (opened later, or the peer's version sent later) the peer receives no request message at all, and no handshaken connection to a banned address is open after a 30 s watchdog (typical: ms); (e) an honest peer is still connected; IsBanned agrees with the reopened store. "+
+		"distinct = scenario shape (kind x peer-mix multiset x path x first peer / steering) and per-peer outcome shape (class[:lie] x path x ban reason x what happened to later connections); non-trivial = at least one ban observed (control: synced with all peers up)")
 	r.Assume("enforcement part: the simulated peers implement the protocol subset of DESIGN appendix B; client knobs (QueryTimeout 1.5 s, ConnectionRetryInterval 300 ms) are the shortened exported configuration of engine L2; a connection 'carried a request' iff the peer-side log shows a non-handshake, non-ping message on it")
 	r.Assume("enforcement part: a ban is timestamped by polling IsBanned, so a connection opened between the ban and its first sighting counts as opened before the ban (weaker, never wrong)")
 
@@ -73,9 +75,10 @@ func EnforcementPart(r *evid.Run) EnfTally {
 	}
 
 	var (
-		mu    sync.Mutex
-		fps   = map[string]bool{}
-		tally EnfTally
+		mu      sync.Mutex
+		fps     = map[string]bool{}
+		tally   EnfTally
+		samples = map[int]any{} // the store half fills evid's sample slots: keep the enforcement samples apart
 	)
 	l2.RunScenariosCB(r, EnforceCount(r), enfChildTimeout, EnforceScenario, func(res *l2.Result) {
 		mu.Lock()
@@ -89,12 +92,17 @@ func EnforcementPart(r *evid.Run) EnfTally {
 				fps[m] = true
 			}
 		}
+		if res.Sample != nil && res.Scenario < 4 {
+			samples[res.Scenario] = map[string]any{"scenario": res.Scenario, "name": res.Name, "fingerprint": res.Fingerprint,
+				"wall_s": res.WallS, "marks": res.Marks, "observed": res.Sample}
+		}
 		tally.Bans += res.Counters["enf_bans_observed"]
 		tally.RequiredBans += res.Counters["enf_required_bans_found"]
 		tally.PostBanConns += res.Counters["enf_postban_connections"]
 		tally.Scenarios += res.Counters["enf_scenarios"]
 	})
 	tally.Distinct = len(fps)
+	tally.Planned = EnforceCount(r)
 	list := make([]string, 0, len(fps))
 	for k := range fps {
 		list = append(list, k)
@@ -104,6 +112,13 @@ func EnforcementPart(r *evid.Run) EnfTally {
 		list = list[:80]
 	}
 	r.Set("enf_fingerprints_seen_first80", list)
+	var ss []any
+	for k := 0; k < 4; k++ {
+		if v, ok := samples[k]; ok {
+			ss = append(ss, v)
+		}
+	}
+	r.Set("enf_samples", ss)
 	r.Count("enf_distinct_nontrivial", int64(tally.Distinct))
 	r.Count("enf_scenarios_nontrivial", int64(tally.Nontrivial))
 	return tally
@@ -112,13 +127,21 @@ func EnforcementPart(r *evid.Run) EnfTally {
 // EnforcementFloorMet says whether the enforcement half observed enough for
 // the run to count; the text explains a miss.
 func (t EnfTally) EnforcementFloorMet() (bool, string) {
+	// The floors shrink with the scenario count (VERIF_SCALE runs).
+	lim := func(floor, n int64) int64 {
+		if n < floor {
+			return n
+		}
+		return floor
+	}
+	n := int64(t.Planned)
 	switch {
-	case t.Distinct < EnforceMinDistinct:
-		return false, fmt.Sprintf("enforcement half: %d distinct non-trivial shapes < floor %d", t.Distinct, EnforceMinDistinct)
-	case t.Bans < enforceMinBans:
-		return false, fmt.Sprintf("enforcement half: %d bans observed < floor %d", t.Bans, enforceMinBans)
-	case t.PostBanConns < enforceMinPostBan:
-		return false, fmt.Sprintf("enforcement half: %d connections opened after a ban < floor %d", t.PostBanConns, enforceMinPostBan)
+	case int64(t.Distinct) < lim(EnforceMinDistinct, n):
+		return false, fmt.Sprintf("enforcement half: %d distinct non-trivial shapes < floor %d", t.Distinct, lim(EnforceMinDistinct, n))
+	case t.Bans < lim(enforceMinBans, n/2):
+		return false, fmt.Sprintf("enforcement half: %d bans observed < floor %d", t.Bans, lim(enforceMinBans, n/2))
+	case t.PostBanConns < lim(enforceMinPostBan, n):
+		return false, fmt.Sprintf("enforcement half: %d connections opened after a ban < floor %d", t.PostBanConns, lim(enforceMinPostBan, n))
 	}
 	return true, ""
 }
